@@ -207,6 +207,26 @@ def abstract_rows(facts, body, g, raw_rows):
     return out
 
 
+def effective_calls(facts, b, depth=0, seen=None):
+    """callee names of a body, looking through helpers that are new relative to the pinned tree"""
+    seen = seen if seen is not None else set()
+    out = set()
+    for blk in b.blocks:
+        t = blk["t"]
+        if t["k"] != "call" or "path" not in t["func"]:
+            continue
+        f = t["func"]
+        for nm in {F.norm(f.get("path", "")), F.norm(f["res"]["path"]) if f.get("res") else None}:
+            if not nm:
+                continue
+            out.add(nm)
+            if depth < 4 and nm not in seen and facts.is_new_helper(nm):
+                seen.add(nm)
+                for cb in facts.by_npath.get(nm, []):
+                    out |= effective_calls(facts, cb, depth + 1, seen)
+    return out
+
+
 def find_sites(facts):
     """Bodies that decode a record header, classified by effect."""
     sites = {}
@@ -216,8 +236,7 @@ def find_sites(facts):
         sites.setdefault(b.path, b)
     out = {}
     for b in sites.values():
-        calls = {F.norm(blk["t"]["func"].get("path", "")) for blk in b.blocks if blk["t"]["k"] == "call"}
-        aggs = {st["rv"]["adt"] for blk in b.blocks for st in blk["st"] if st["k"] == "assign" and st["rv"]["k"] == "agg" and st["rv"].get("ak") == "adt"}
+        calls = effective_calls(facts, b)
         if BEGIN_FROM_BYTES in calls:
             kind = 'header'      # can start a request
         elif any("cmp_input_streams" in c for c in calls):
